@@ -26,7 +26,9 @@ THEOREMS = [
     "outline_invariant", "fuel_suffices", "dangling_href_local", "dangling_decodes_to_href_object",
     "empty_array_is_empty_list", "array_items_typed", "array_is_list",
     "moved_attributes_keep_their_prefixes", "moved_children_keep_their_prefixes",
-    "move_without_declarations_refuted", "rebound_on_referrer_path_refuted", "unmarked_before_response_refuted",
+    "move_without_declarations_refuted", "rebound_on_referrer_path_refuted",
+    "promote_never_overwrites_parent", "promote_collision_stays_local", "promote_keeps_meaning",
+    "promote_keeps_siblings", "promote_overwrite_refuted", "unmarked_before_response_refuted",
 ]
 
 PRE = "From SV Require Import Lib.Base C18.Model."
@@ -939,9 +941,11 @@ def run(ck):
         "children, RPC.replycontent, Binding.get_reply for one returned part, Encoded.setaty/applyaty (mutating "
         "shared children)/promote/postprocess, Typed.start (declared child type, xsi:type wins, TypeNotFound), "
         "Core.append_attributes (AttrList.skip)/append_children/append_text/postprocess",
-        "prefix handling: Prefix.v models Element.resolvePrefix over parent pointers and replace_references at that "
-        "level (children re-parented, the referenced node's declarations copied to the referrer since db8b9ec) with "
-        "theorems and two witnesses; the decoding model itself works on the namespace infoset expat reports, and "
+        "prefix handling: Prefix.v models Element.resolvePrefix over parent pointers, Element.promotePrefixes (one "
+        "element against its parent) and replace_references at that level (children re-parented, the referenced "
+        "node's declarations copied to the referrer since db8b9ec) with theorems and three witnesses; 30% of the "
+        "random out-lined forms are Axis style (independent elements re-declare ONE prefix spelling locally for two "
+        "different namespaces, in the placements inside the guard of moved_attributes_keep_their_prefixes); the decoding model itself works on the namespace infoset expat reports, and "
         "Element.promotePrefixes, shared Attribute objects and the xsi prefix applyaty declares are covered by "
         "correspondence only (prefixes declared on the Envelope or on the independent elements, three hand-written "
         "rebinding probes); soaparray.Attribute/wsdl:arrayType on the schema side; builtin "
@@ -1084,7 +1088,8 @@ def run(ck):
                "arrays, typed/untyped elements and items) x %d out-lined forms: each occurrence in line or href "
                "(p in {.15,.4,.7,1}), shared or copied referents, 8 id spellings, independent elements named "
                "multiRef/item/ref/Object/type name, shuffled, before/after the response, marked root=0/false, unmarked, "
-               "mixed, response marked root=1 or not, prefixes on the Envelope or on each independent element, 4-7 "
+               "mixed, response marked root=1 or not, prefixes on the Envelope or on each independent element, Axis "
+               "style in 30%% (one spelling re-declared locally for two namespaces on sibling independent elements), 4-7 "
                "spellings of each prefix, compact/indented, dangling href in 12%%; distinct = (value, out-lined "
                "document); non-trivial = at least one reference"
                % ((12 if quick else 40) + 10, ck.extra.get("exhaustive_occurrences", 0),
